@@ -71,11 +71,17 @@ def main(argv=None):
     args = ap.parse_args(argv)
 
     if args.cmd == "self-check":
-        for p in PROPS:
-            importlib.import_module(f"lbsa.props.{p.lower()}")
-        for f in ("/root/.vp/EVIDENCE.schema.json",):
-            pass
-        print("lbsa self-check ok:", len(PROPS), "property modules import")
+        import json as _json
+        here = os.path.dirname(os.path.dirname(os.path.abspath(__file__)))
+        with open(os.path.join(here, "MANIFEST.json")) as f:
+            man = _json.load(f)
+        n = 0
+        for chk in man["checks"]:
+            importlib.import_module(f"lbsa.props.{chk['property_id'].lower()}")
+            n += 1
+        report.load_known()
+        print(f"lbsa self-check ok: {n} property modules import, known_findings.json readable; nothing to build "
+              f"(stdlib-only static analyser, python {sys.version.split()[0]})")
         return 0
 
     pid = args.property.upper()
